@@ -544,6 +544,31 @@ def rnd_dict(rng, depth, nkeys):
     return d
 
 
+CODEPAGES = ['latin-1', 'cp1252', 'iso-8859-15']
+_REPERTOIRE = {'latin-1': '\u00e9\u00e8\u00fc\u00f1\u00df\u00bd\u00a3\u00c5', 'cp1252': '\u00e9\u00fc\u00df\u20ac\u2026\u0153\u2019\u00c5',
+               'iso-8859-15': '\u00e9\u00fc\u00df\u20ac\u0153\u0160\u017e\u00c5'}
+
+
+def fit_codepage(o, encoding):
+    """the same object with every character outside the code page replaced by one inside it
+    (accented letters, currency signs, typographic punctuation)"""
+    rep = _REPERTOIRE[encoding]
+    if isinstance(o, str):
+        out = []
+        for ch in o:
+            try:
+                ch.encode(encoding)
+                out.append(ch)
+            except UnicodeEncodeError:
+                out.append(rep[ord(ch) % len(rep)])
+        return ''.join(out)
+    if isinstance(o, list):
+        return [fit_codepage(x, encoding) for x in o]
+    if isinstance(o, dict):
+        return {fit_codepage(k, encoding): fit_codepage(v, encoding) for k, v in o.items()}
+    return o
+
+
 def rnd_case(desc):
     """everything about a random execution is derived from (seed, n, size)"""
     rng = random.Random(desc['seed'] * 1000003 + desc['n'] * 7 + {'empty': 0, 'tiny': 1, 'medium': 2,
@@ -565,6 +590,8 @@ def rnd_case(desc):
         return [obj], codec, encoding, rng.choice(['path', 'fileobj']), 'path', plan_whole, True
     if size in ('tiny', 'medium') and rng.random() < 0.12:
         encoding = 'utf-16'
+    elif size in ('tiny', 'medium') and rng.random() < 0.18:
+        encoding = rng.choice(CODEPAGES)        # single-byte code pages: texts within their repertoire
     tagged = rng.random() < 0.8
     objs = []
     if size == 'aligned':
@@ -612,6 +639,8 @@ def rnd_case(desc):
             if rng.random() < 0.3:
                 d['l'] = [rnd_text(rng, 3, kind), rnd_int(rng), rnd_float(rng), None]
             objs.append(d)
+    if encoding in CODEPAGES:
+        objs = [fit_codepage(o, encoding) for o in objs]
     if tagged:
         for i, o in enumerate(objs):
             o['_id'] = i + 1
